@@ -275,6 +275,13 @@ static ares_status_t ares_hostent_localhost(const char *name, int family,
 
 done:
   ares_freeaddrinfo(ai);
+  if (status != ARES_SUCCESS) {
+    /* *host_out may hold the entry found in the hosts file that we were asked
+     * to complete: a failing lookup must not leave it behind (documented:
+     * "*host will be NULL") */
+    ares_free_hostent(*host_out);
+    *host_out = NULL;
+  }
   return status;
 }
 
